@@ -73,7 +73,10 @@ def convertMCNPGeometry(mcnp_parser, lattice_params, args):
                 abspath = t4_vol_cache_path.resolve()
                 print(f'reading TRIPOLI-4 volumes from file {abspath}...',
                       end='', flush=True)
-                vol_conv = pickle.load(dicfile)
+                # the MCNP surface dictionary is part of the cached data:
+                # the conversion of the cells adds the surfaces it generates
+                # (and their boundary-condition flags) to it
+                vol_conv, dic_surface_mcnp = pickle.load(dicfile)
                 print(' done', flush=True)
         except:
             vol_conv = construct_volume_t4(mcnp_parser, lattice_params,
@@ -87,7 +90,7 @@ def convertMCNPGeometry(mcnp_parser, lattice_params, args):
                 abspath = t4_vol_cache_path.resolve()
                 print(f'writing cells to file {abspath}...',
                       end='', flush=True)
-                pickle.dump(vol_conv, dicfile)
+                pickle.dump((vol_conv, dic_surface_mcnp), dicfile)
                 print(' done', flush=True)
 
     dic_volume, mcnp_new_dict, dic_surface_t4, skipped_cells, union_ids = vol_conv
